@@ -20,8 +20,9 @@ func init() {
 	register("C19", "exploration", runC19, replayC19)
 }
 
-// the last kind repeats the first: a preamble may contain the same block twice (#endif, #endif)
-var preKinds = []string{"#include <a.h>", "#include <b.h>\nvoid f() {}\n", "// #cgo LDFLAGS: -lm", "/* #include <c.h> */", "#include <d.h>\n", "#include <a.h>"}
+// the sixth kind repeats the first: a preamble may contain the same block twice (#endif, #endif); the last is the
+// empty string (rendered as a bare // line, still part of the comment group above import "C")
+var preKinds = []string{"#include <a.h>", "#include <b.h>\nvoid f() {}\n", "// #cgo LDFLAGS: -lm", "/* #include <c.h> */", "#include <d.h>\n", "#include <a.h>", ""}
 
 type cgoCase struct {
 	QualC     bool `json:"qual_c"`
@@ -323,7 +324,7 @@ func c19Case(r *mon.Run, cc cgoCase, c mon.Case) {
 
 func runC19(r *mon.Run) {
 	dom := cgoDomain()
-	r.SetRule(fmt.Sprintf("matrix {Qual C, Anon C (before/after the preambles)} x 64 subsets of 6 preamble kinds (one-line, multi-line, raw //, raw /* */, one line with a trailing newline, the first block once more) in 2 orders x 10 other-import shapes (none, one std, several, aliased, anonymous, bases c/C, hints that ask for the name C, 14 imports, paths that sort before \"C\") x prefix x 5 hint kinds naming \"C\" (none, ImportName, ImportAlias, dot, ImportNames) = %d combinations, each rendered formatted and NoFormat; enumerated completely in both tiers. non-trivial = the combination involves \"C\" at all", len(dom)))
+	r.SetRule(fmt.Sprintf("matrix {Qual C, Anon C (before/after the preambles)} x 128 subsets of 7 preamble kinds (one-line, multi-line, raw //, raw /* */, one line with a trailing newline, the first block once more, the empty string) in 2 orders x 10 other-import shapes (none, one std, several, aliased, anonymous, bases c/C, hints that ask for the name C, 14 imports, paths that sort before \"C\") x prefix x 5 hint kinds naming \"C\" (none, ImportName, ImportAlias, dot, ImportNames) = %d combinations, each rendered formatted and NoFormat; enumerated completely in both tiers. non-trivial = the combination involves \"C\" at all", len(dom)))
 	c19NegControls(r)
 	r.SetExhaustive(true)
 	mon.Parallel(len(dom), func(i int) { c19Case(r, dom[i], mon.Case{Gen: "matrix", Seed: r.Seed, Index: int64(i)}) })
